@@ -43,14 +43,29 @@ pub fn query_set(tier: Tier, seed: u64) -> Vec<(String, bool)> {
             qs.insert((*t).clone());
         }
     }
-    // prefixes of tokens (1..7 characters), sampled
-    let nprefix = tier.pick(600usize, 4000);
+    // every 1..7 character prefix of every token: with the index's prefix-only 1..7-grams these are
+    // exactly the distinct terms a one-word query can hit, so ties between constants of different data
+    // files (which only depend on the order the files were indexed in) cannot hide behind sampling
+    for t in &toks {
+        let chars: Vec<char> = t.chars().collect();
+        for n in 1..=chars.len().min(7) {
+            let p: String = chars[..n].iter().collect();
+            if !p.chars().next().unwrap().is_ascii_digit() && p != "to" && crate::facts::typable(&[p.clone()]) {
+                qs.insert(p);
+            }
+        }
+    }
+    // two short prefixes (ambiguous by construction), sampled
+    let nprefix = tier.pick(600usize, 6000);
     for i in 0..nprefix {
-        let t = toks[(mix(seed, i as u64) % toks.len() as u64) as usize];
-        let n = 1 + (mix(seed ^ 77, i as u64) % 7) as usize;
-        let p: String = t.chars().take(n).collect();
-        if !p.is_empty() && !p.chars().next().unwrap().is_ascii_digit() && p != "to" {
-            qs.insert(p);
+        let a = toks[(mix(seed, i as u64) % toks.len() as u64) as usize];
+        let b = toks[(mix(seed ^ 5, i as u64) % toks.len() as u64) as usize];
+        let na = 1 + (mix(seed ^ 77, i as u64) % 4) as usize;
+        let nb = 1 + (mix(seed ^ 78, i as u64) % 4) as usize;
+        let pa: String = a.chars().take(na).collect();
+        let pb: String = b.chars().take(nb).collect();
+        if !pa.chars().next().unwrap().is_ascii_digit() && pa != "to" && pb != "to" && crate::facts::typable(&[pa.clone(), pb.clone()]) {
+            qs.insert(format!("{} {}", pa, pb));
         }
     }
     // random token pairs
@@ -115,7 +130,7 @@ pub fn run_probe(mode: &str, xdg: &Path, queries_file: &Path, env: &[(&str, Stri
 }
 
 pub fn run_check(ctx: &Ctx) {
-    ctx.set_rule("histories of sessions (repeated in-memory builds in this process, sequentially and concurrently from several threads; child processes pinned to 1, 2 and all CPUs, with and without a busy background load; a first on-disk build under a private XDG_DATA_HOME, a reopen of it, a rebuild over it after the stored hash was made stale) all answer the same query set (every typable fact's own words, every single word, sampled 1-7 character prefixes, random word pairs); oracle: for every query all sessions return the same outcome (constant description, value, unit, source, tokens, or the same error); non-trivial = queries whose words are all carried by >= 2 shipped constants; distinct by query text; an evaluation is one (session, query) answer");
+    ctx.set_rule("histories of sessions (repeated in-memory builds in this process, sequentially and concurrently from several threads; child processes pinned to 1, 2 and all CPUs, with and without a busy background load; a first on-disk build under a private XDG_DATA_HOME, a reopen of it, a rebuild over it after the stored hash was made stale) all answer the same query set (every typable fact's own words, every single word, every 1-7 character prefix of every word (all terms of the prefix n-gram index), sampled pairs of short prefixes, random word pairs); oracle: for every query all sessions return the same outcome (constant description, value, unit, source, tokens, or the same error); non-trivial = queries whose words are all carried by >= 2 shipped constants; distinct by query text; an evaluation is one (session, query) answer");
     ctx.assume("the schedule of tantivy's indexing threads is sampled by repetition, CPU pinning and background load, not enumerated");
     let qs = query_set(ctx.tier, ctx.seed);
     let queries: Vec<String> = qs.iter().map(|q| q.0.clone()).collect();
